@@ -1,6 +1,65 @@
-// C25: the real Metadata::paths on a generated project layout (filled in with the C25 check).
+// C25: the real Metadata::paths (and through it Lockfile::paths / veryl_std::paths) on a generated
+// project layout.
+//   {"dir": scratch dir, "files": {relative path: text}, "project": "prj",
+//    "include_dependencies": bool, "out_dir": null | relative dir, "explicit": [relative files]}
+// -> {"paths": [{"prj","src","dst","map","example"}]}  (scratch dir replaced by {ROOT})  |  {"err": kind}
 use serde_json::{Value, json};
+use std::fs;
+use std::path::PathBuf;
+use veryl_metadata::Metadata;
 
-pub fn run_paths(_v: &Value) -> Value {
-    json!({"todo": true})
+pub fn run_paths(v: &Value) -> Value {
+    let dir = PathBuf::from(v["dir"].as_str().unwrap());
+    let _ = fs::remove_dir_all(&dir);
+    fs::create_dir_all(&dir).unwrap();
+    let dir = dir.canonicalize().unwrap();
+    let root_s = dir.to_string_lossy().to_string();
+    let cache = dir.join("cache");
+    fs::create_dir_all(&cache).unwrap();
+    fs::create_dir_all(dir.join("home")).unwrap();
+    unsafe {
+        std::env::set_var("XDG_CACHE_HOME", &cache);
+        std::env::set_var("HOME", dir.join("home"));
+    }
+    for (f, text) in v["files"].as_object().unwrap() {
+        let p = dir.join(f);
+        fs::create_dir_all(p.parent().unwrap()).unwrap();
+        fs::write(&p, text.as_str().unwrap().replace("{ROOT}", &root_s)).unwrap();
+    }
+    let prj = dir.join(v["project"].as_str().unwrap_or("prj"));
+    let res = (|| -> Result<Value, veryl_metadata::MetadataError> {
+        let mut md = Metadata::load(prj.join("Veryl.toml"))?;
+        if let Some(o) = v["out_dir"].as_str() {
+            let od = dir.join(o);
+            fs::create_dir_all(&od).unwrap();
+            md.output_dir_override = Some(od.canonicalize().unwrap());
+        }
+        let explicit: Vec<PathBuf> = v["explicit"]
+            .as_array()
+            .map(|a| a.iter().map(|x| dir.join(x.as_str().unwrap())).collect())
+            .unwrap_or_default();
+        let ps = md.paths(&explicit, false, v["include_dependencies"].as_bool().unwrap_or(false))?;
+        let mut out = Vec::new();
+        for p in ps {
+            out.push(json!({
+                "prj": p.prj,
+                "src": p.src.to_string_lossy().replace(&root_s, "{ROOT}"),
+                "dst": p.dst.to_string_lossy().replace(&root_s, "{ROOT}"),
+                "map": p.map.to_string_lossy().replace(&root_s, "{ROOT}"),
+                "example": p.example,
+            }));
+        }
+        Ok(json!({"paths": out}))
+    })();
+    if !v["keep"].as_bool().unwrap_or(false) {
+        let _ = fs::remove_dir_all(&dir);
+    }
+    match res {
+        Ok(x) => x,
+        Err(e) => {
+            let d = format!("{e:?}");
+            let k: String = d.chars().take_while(|c| c.is_ascii_alphanumeric()).collect();
+            json!({"err": k, "msg": e.to_string()})
+        }
+    }
 }
